@@ -69,3 +69,9 @@ CLAIMS["C19"] = (
     "`re` on the literal pattern and int() of ASCII digits are assumed contracts; the behaviour of c/x/l/a themselves is the library's (C02, C08, C10) and is not re-proved; run_create/run_append/_run_list are outside the contracts unless listed in the evidence.",
     "DESIGN.md 7 (C19)",
 )
+
+CLAIMS["C12"] = (
+    "Typestate contracts of the read session, proved on the real methods: reset() re-positions the file, installs a new worker and leaves NO folder with a cached decoder (quantified over all folders, loop invariant); testzip() starts decoding from fresh decoders at the start of the packed streams, decodes every member and uses the parallel path only for archives opened by name; test() touches no decoder and compares every defined pack digest over the right byte range; close() in read mode has no write effect on the archive.",
+    "Abstract mode (opaque objects; attribute stores tracked by a write log, unknown callees havoc it); equality of *results* across sessions additionally needs determinism of the codecs (assumed). Fixed defects FX03/FX04 are recorded in known_findings.json.",
+    "DESIGN.md 7 (C12)",
+)
